@@ -130,6 +130,20 @@ pub fn lzma_blocks_consumed(data: &[u8], o: &Options) -> (Outcome, usize) {
     (wrap(c, out), data.len() - left)
 }
 
+/// A raw decoder built with another size, then told the real one through reset(Some(size)): payload only (no header).
+pub fn raw_lzma_resized(payload: &[u8], lc: u32, lp: u32, pb: u32, dict: u32, built_with: Option<u64>, size: Option<u64>) -> (Outcome, usize) {
+    let mut out = Vec::new();
+    let mut rd = payload;
+    let c = catch(|| {
+        let params = LzmaParams::new(LzmaProperties { lc, lp, pb }, dict, built_with);
+        let mut d = LzmaDecoder::new(params, None)?;
+        d.reset(Some(size));
+        d.decompress(&mut rd, &mut out)
+    });
+    let left = rd.len();
+    (wrap(c, out), payload.len() - left)
+}
+
 fn is_default(o: &Options) -> bool {
     matches!(o.unpacked_size, lzma_rs::decompress::UnpackedSize::ReadFromHeader) && o.memlimit.is_none() && !o.allow_incomplete
 }
